@@ -1085,10 +1085,12 @@ class MyPyAstVisitor:
             unanalyzed_type_name = unanalyzed_type.name
             if unanalyzed_type_name == "Final":
                 # Final type
-                types = [self.mypy_type_to_abstract_type(arg) for arg in getattr(unanalyzed_type, "args", [])]
-                if len(types) == 1:
-                    return sds_types.FinalType(type_=types[0])
-                elif len(types) >= 2:
+                final_args = getattr(unanalyzed_type, "args", [])
+                if len(final_args) == 1:
+                    # mypy_type is the analysed argument of Final[...]
+                    return sds_types.FinalType(type_=self.mypy_type_to_abstract_type(mypy_type, final_args[0]))
+                types = [self.mypy_type_to_abstract_type(arg) for arg in final_args]
+                if len(types) >= 2:
                     return sds_types.FinalType(type_=sds_types.UnionType(types=types))
                 # "Final" without type argument: the type is inferred by mypy and handled below
             elif unanalyzed_type_name in {"list", "set"}:
